@@ -370,6 +370,9 @@ def run_generated(case):
         before = [str(sk.fingerprint)]
         k.add_subkey(sk, usage={KeyFlags.Sign})
         ek = pgpy.PGPKey.new(PubKeyAlgorithm.ECDH, dict(ECDH)[case['ecdh']], created=created)
+        if (len(case['zone']) + len(case['time'])) % 2:
+            # KDF hash and key-wrap cipher are parameters of the key (RFC 6637 section 9, part of the fingerprint): not the per-curve defaults
+            ek._key.keymaterial.kdf.halg, ek._key.keymaterial.kdf.encalg = HashAlgorithm.SHA512, SymmetricKeyAlgorithm.AES192
         before.append(str(ek.fingerprint))
         k.add_subkey(ek, usage={KeyFlags.EncryptCommunications, KeyFlags.EncryptStorage})
         ck.eq('fingerprints of the two keys after add_subkey() made them subkeys vs before', [str(sk.fingerprint), str(ek.fingerprint)], before)
